@@ -391,10 +391,22 @@ def code_intervals(inst, edge_order):
     return rain, jump
 
 
+def set_log_level(seed):
+    """The logging level is part of the configuration a user chooses (-v ... -vvv);
+    results must not depend on it.  One case in four runs with spowtd's loggers
+    at DEBUG (output discarded)."""
+    import logging  # pylint: disable=import-outside-toplevel
+    logger = logging.getLogger("spowtd")
+    if not logger.handlers:
+        logger.addHandler(logging.NullHandler())
+    logger.setLevel(logging.DEBUG if seed % 4 == 3 else logging.WARNING)
+
+
 def run_function_case(inst, edge_order, schedule):
     """One execution of the real arbitration under one schedule.
     Returns (matching dict rise->storm or None, exception info or None, ctx)."""
     mod = classify_module()
+    set_log_level(schedule.seed)
     rain, jump = code_intervals(inst, edge_order)
     ctx = with_schedule(schedule)
     try:
@@ -889,7 +901,9 @@ def run_data_case(spec, thresholds, schedules, directory, loaded_db=None):
         sqlseam.set_plan(None)
         try:
             style = THRESHOLD_STYLES[sch.seed % len(THRESHOLD_STYLES)]
-            out = cli.run(["classify", db, "-s", format_threshold(s_thr, style), "-j", format_threshold(j_thr, style)])
+            verbosity = (sch.seed // 8) % 5          # none, -v, -vv, -vvv (DEBUG), -vvvv
+            out = cli.run(["classify", db, "-s", format_threshold(s_thr, style), "-j", format_threshold(j_thr, style)]
+                          + (["-" + "v" * verbosity] if verbosity else []))
         finally:
             without_schedule()
             observed, _OBSERVED_CALLS = _OBSERVED_CALLS, None
@@ -1034,6 +1048,7 @@ def run_series_case(rain, head, s_thr, jump_delta, schedules):
     base_replay = {"level": "series", "rain": list(rain), "head": list(head), "s_thr": s_thr, "jump_delta": jump_delta}
     for sch in schedules:
         ctx = with_schedule(sch)
+        set_log_level(sch.seed)
         info = None
         out = None
         try:
